@@ -1,6 +1,9 @@
 package an
 
 import (
+	"go/constant"
+	"strings"
+
 	"golang.org/x/tools/go/ssa"
 )
 
@@ -60,7 +63,7 @@ func (ff *FuncFacts) AtRefined(b *ssa.BasicBlock) FactSet {
 							continue // this edge yields the opposite truth value
 						}
 					}
-					ef := ff.EdgeFacts(pred, ph.Block())
+					ef := ff.edgeFactsIntoMerge(pred, ph.Block())
 					if _, isConst := e.(*ssa.Const); !isConst {
 						cf := ff.T.Cond(e)
 						if !f.Pos {
@@ -108,7 +111,7 @@ func (ff *FuncFacts) AtRefined(b *ssa.BasicBlock) FactSet {
 				if !ff.Reachable(pred) {
 					continue
 				}
-				ef := ff.EdgeFacts(pred, ph.Block())
+				ef := ff.edgeFactsIntoMerge(pred, ph.Block())
 				vt := ff.T.Of(e)
 				if f.Pos { // phi == nil: drop edges whose value is certainly non-nil
 					if neverNil(e) || ef.Has(NE(vt, "nil")) {
@@ -207,6 +210,15 @@ func (ff *FuncFacts) UnphiAt(v ssa.Value, at ssa.Instruction) ssa.Value {
 				continue
 			}
 			qt := ff.T.Of(q)
+			// a flag merged in the same block (`done := false; for !done {…}`): where the flag is known
+			// true (false) the edges that bring the constant false (true) are not the ones taken
+			if isT, isF := fs.Has(B(qt)), fs.Has(NotB(qt)); isT != isF {
+				for i, e := range q.Edges {
+					if k, isConst := e.(*ssa.Const); isConst && k.Value != nil && k.Value.Kind() == constant.Bool && constant.BoolVal(k.Value) != isT {
+						dead[i] = true
+					}
+				}
+			}
 			isNil := fs.Has(EQ(qt, "nil")) || fs.Has(EQ("nil", qt))
 			notNil := fs.Has(NE(qt, "nil")) || fs.Has(NE("nil", qt))
 			if !isNil && !notNil {
@@ -242,6 +254,37 @@ func (ff *FuncFacts) UnphiAt(v ssa.Value, at ssa.Instruction) ssa.Value {
 		v = only
 	}
 	return v
+}
+
+// edgeFactsIntoMerge is EdgeFacts for reading a merge of block m along the edge pred→m. On a back edge
+// the merges of m change their value: what was known about them at pred is about the previous trip
+// round the loop and is dropped.
+func (ff *FuncFacts) edgeFactsIntoMerge(pred, m *ssa.BasicBlock) FactSet {
+	ef := ff.EdgeFacts(pred, m)
+	if !ff.Dominates(m, pred) {
+		return ef
+	}
+	var phis []string
+	for _, in := range m.Instrs {
+		q, isPhi := in.(*ssa.Phi)
+		if !isPhi {
+			break
+		}
+		phis = append(phis, ff.T.Of(q))
+	}
+	var out FactSet
+	for _, f := range ef {
+		stale := false
+		for _, pt := range phis {
+			if pt != "" && (strings.Contains(f.A, pt) || strings.Contains(f.B, pt)) {
+				stale = true
+			}
+		}
+		if !stale {
+			out = append(out, f)
+		}
+	}
+	return out
 }
 
 func contradictoryFacts(fs FactSet) bool {
